@@ -411,7 +411,8 @@ PROPS = {
         "Hd.Pool.C02_available_means_ready", "Hd.Pool.C02_busy_not_available", "Hd.Pool.C02_handout_ready",
         "Hd.Pool.step_lininv", "Hd.Pool.run_lininv", "Hd.Pool.step_ready", "Hd.Pool.run_ready", "Hd.Pool.C02_single_delivery", "Hd.Pool.C02_delivered_not_idle",
         "Hd.Pool.C02_handback_only_when_ready", "Hd.Pool.C02_pop_not_busy", "Hd.Pool.C02_exec_marks_busy"]),
-    "C03": pool_prop("HdModel.Props.C03", ["C03/"], ["Hd.Pool.C03_cancel_releases", "Hd.Pool.C03_owner_drop_cancels",
+    "C03": pool_prop("HdModel.Props.C03", ["C03/"], ["Hd.Pool.C03_waiter_only_while_attempt_in_flight", "Hd.Pool.C03_waiter_poll",
+        "Hd.Pool.step_waiters", "Hd.Pool.run_waiters", "Hd.Pool.C03_cancel_releases", "Hd.Pool.C03_owner_drop_cancels",
         "Hd.Pool.C03_released_waiter_resolves", "Hd.Pool.C03_released_dialer_continues", "Hd.Pool.C03_resolves_when_attempt_done"]),
     "C04": pool_prop("HdModel.Props.C04", ["C04/"], ["Hd.Pool.C04_reuse_issue", "Hd.Pool.C04_reuse_poll", "Hd.Pool.C04_share_stays_pooled",
         "Hd.Pool.C04_dedup_issue", "Hd.Pool.C04_dedup_poll", "Hd.Pool.C04_marker_owner", "Hd.Pool.issue_found", "Hd.Pool.issue_missing"]),
